@@ -44,13 +44,16 @@ def s(r, p=DEFAULT):
 
 def num(r):
     # (the lexeme is the number: leading zeros and trailing zeros are part of it)
-    return r.choice(['1', '100.00', '1,234.56', '0.5', '3.', '12', '0', '1,000,000', '1', '12', '007', '00.50', '0042', '1.500'])
+    # zero is a number like any other (a falsy one, for code that tests a child by truthiness)
+    return r.choice(['1', '100.00', '1,234.56', '0.5', '3.', '12', '0', '1,000,000', '1', '12', '007', '00.50', '0042', '1.500', '0', '0.00'])
 
 
 def expr(r, d=0):
     k = r.random()
     if d > 2 or k < 0.5:
         return num(r)
+    if k < 0.53:
+        return r.choice(['(1 - 1)', '2 - 2', '0 * 5', '-0'])      # zero-valued without being the numeral 0
     if k < 0.6:
         return r.choice('-+') + expr(r, d + 1)
     if k < 0.7:
